@@ -107,12 +107,14 @@ func (ts *TimedSched) sched() {
 
 	var tasks timedFuncHeap
 	drained := false
+	wid := verifWorkerID()
 	for {
 		select {
 		case task := <-ts.chTask:
 			now := time.Now()
 			if now.After(task.ts) {
 				// already delayed! execute immediately
+				verifEv("sched.execnow", ts, wid, int64(now.Sub(task.ts)), 0)
 				task.execute()
 			} else {
 				heap.Push(&tasks, task)
@@ -122,15 +124,19 @@ func (ts *TimedSched) sched() {
 					<-timer.C
 				}
 				timer.Reset(tasks[0].ts.Sub(now))
+				verifEv("sched.arm", ts, wid, int64(tasks[0].ts.Sub(now)), verifB(stopped)+2*verifB(drained)+4*int64(tasks.Len()))
 				drained = false
 			}
 		case now := <-timer.C:
 			drained = true
+			verifEv("sched.fire", ts, wid, int64(tasks.Len()), 0)
 			for tasks.Len() > 0 {
 				if now.After(tasks[0].ts) {
+					verifEv("sched.exec", ts, wid, int64(now.Sub(tasks[0].ts)), int64(tasks.Len()))
 					heap.Pop(&tasks).(timedFunc).execute()
 				} else {
 					timer.Reset(tasks[0].ts.Sub(now))
+					verifEv("sched.rearm", ts, wid, int64(tasks[0].ts.Sub(now)), int64(tasks.Len()))
 					drained = false
 					break
 				}
@@ -172,6 +178,7 @@ func (ts *TimedSched) prepend() {
 func (ts *TimedSched) Put(f func(), deadline time.Time) {
 	ts.prependLock.Lock()
 	ts.prependTasks = append(ts.prependTasks, timedFunc{f, deadline})
+	verifEv("sched.put", ts, int64(len(ts.prependTasks)), 0, 0)
 	ts.prependLock.Unlock()
 
 	select {
